@@ -39,6 +39,7 @@ properties! {
     "C13" => c13,
     "C14" => c14,
     "C15" => c15,
+    "C16" => c16,
     "C06" => c06,
     "C19" => c19,
 }
